@@ -43,17 +43,38 @@ def writes(s, name, idx_names):
     return False
 
 
-def init_obligations():
+UNINIT = ('np.empty', 'numpy.empty', 'np.empty_like', 'numpy.empty_like', 'np.ndarray', 'numpy.ndarray')
+
+
+def init_obligations(modules=('separation',)):
     obs = []
-    mod = frontend.module('separation')
+    for mname in modules:
+        obs.extend(_init_obligations(mname))
+    return obs
+
+
+def _init_obligations(mname):
+    obs = []
+    mod = frontend.module(mname)
     for fname, fd in mod.functions.items():
         empties = []
+        named = set()
         for n in ast.walk(fd):
-            if isinstance(n, ast.Assign) and isinstance(n.value, ast.Call) and frontend.dotted(n.value.func) == 'np.empty' \
-                    and len(n.targets) == 1 and isinstance(n.targets[0], ast.Name):
+            if isinstance(n, ast.Assign) and isinstance(n.value, ast.Call) and frontend.dotted(n.value.func) in UNINIT \
+                    and len(n.targets) == 1 and isinstance(n.targets[0], ast.Name) and n.value.args:
                 shape = n.value.args[0]
-                dims = list(shape.elts) if isinstance(shape, ast.Tuple) else [shape]
+                dims = list(shape.elts) if isinstance(shape, (ast.Tuple, ast.List)) else [shape]
+                named.add(id(n.value))
+                if any(isinstance(d, ast.Constant) and d.value == 0 for d in dims):
+                    continue            # a buffer with a zero extent has no cell to read
                 empties.append((n.targets[0].id, [ast.unparse(d) for d in dims], n.lineno, n))
+        for n in ast.walk(fd):
+            # an uninitialised allocation that is not bound to a plain name cannot be followed by this rule
+            if isinstance(n, ast.Call) and frontend.dotted(n.func) in UNINIT and id(n) not in named:
+                obs.append(dict(id='%s.%s#init:anonymous@L%d' % (mname, fname, n.lineno), kind='init', label='anonymous', props=['C19', 'C15'], line=n.lineno,
+                                note='uninitialised allocation `%s` is not assigned to a plain name' % ast.unparse(n)[:80], expect='unsat', verdict='refuted',
+                                backend='ast-must-write', time=0.0, model=dict(function=fname, line=n.lineno), goal='every uninitialised buffer is filled before use',
+                                native=None, finding=None))
         for name, dims, line, node in empties:
             # the loop nests that follow the allocation in the same block
             ok, why = False, 'no loop fills it'
@@ -87,7 +108,7 @@ def init_obligations():
                     break
                 else:
                     why = 'some path through the loop at line %d does not write %s[%s]' % (s.lineno, name, ', '.join(covering))
-            obs.append(dict(id='separation.%s#init:%s@L%d' % (fname, name, dims_key(empties, name, line)), kind='init', label=name, props=['C19', 'C15'], line=line,
+            obs.append(dict(id='%s.%s#init:%s@L%d' % (mname, fname, name, dims_key(empties, name, line)), kind='init', label=name, props=['C19', 'C15'], line=line,
                             note='' if ok else 'np.empty buffer %s: %s' % (name, why), expect='unsat', verdict='discharged' if ok else 'refuted',
                             backend='ast-must-write', time=0.0, model=None if ok else dict(buffer=name, function=fname, line=line, why=why),
                             goal='every cell of %s (np.empty%s) is written on every path before it is returned' % (name, tuple(dims)),
@@ -252,7 +273,7 @@ def run(prop, tier, seed, known):
     t0 = time.time()
     if prop == 'C15':
         # for the purity property only the initialisation obligations matter (no result depends on uninitialised memory)
-        return dict(results=[dict(kind='engine', engine='sepstruct', name='np.empty buffers', status='ok', detail='', paths=0, obligations=init_obligations(),
+        return dict(results=[dict(kind='engine', engine='sepstruct', name='np.empty buffers', status='ok', detail='', paths=0, obligations=init_obligations(tuple(frontend.MODULES)),
                                   inlined=[], used_contracts=[], gen_time=0, wall=0, lib_used=[], props=['C15'])], bounded=[])
     obs = [o for o in bundles.arity_obligations() if 'C19' in o['props']]
     results.append(dict(kind='engine', engine='sepstruct', name='separation result arity', status='ok', detail='', paths=0, obligations=obs, inlined=[],
